@@ -24,6 +24,9 @@ type FakeSQL struct {
 	Dialect string // mysql (?), postgres ($n), oracle (:n)
 	Tables  map[string]*SQLTable
 	Log     []string
+	// Unsupported collects statements outside the fake's grammar: the harness reports them as a gap of the
+	// machinery (exit 2), never as a violation of the property.
+	Unsupported []string
 }
 
 type SQLTable struct {
@@ -153,6 +156,7 @@ func (s *fakeStmt) Exec(args []driver.Value) (driver.Result, error) {
 	e.Log = append(e.Log, s.q)
 	m := reInsert.FindStringSubmatch(s.q)
 	if m == nil {
+		e.Unsupported = append(e.Unsupported, s.q)
 		return nil, fmt.Errorf("fakesql: cannot parse statement %q", s.q)
 	}
 	t := e.Tables[strings.ToLower(m[1])]
@@ -206,6 +210,7 @@ func (s *fakeStmt) Query(args []driver.Value) (driver.Rows, error) {
 	e.Log = append(e.Log, s.q)
 	m := reSelect.FindStringSubmatch(s.q)
 	if m == nil {
+		e.Unsupported = append(e.Unsupported, s.q)
 		return nil, fmt.Errorf("fakesql: cannot parse query %q", s.q)
 	}
 	t := e.Tables[strings.ToLower(m[2])]
@@ -228,6 +233,7 @@ func (s *fakeStmt) Query(args []driver.Value) (driver.Rows, error) {
 	for _, part := range regexp.MustCompile(`(?i)\s+and\s+`).Split(m[3], -1) {
 		cm := reCond.FindStringSubmatch(part)
 		if cm == nil {
+			e.Unsupported = append(e.Unsupported, s.q)
 			return nil, fmt.Errorf("fakesql: cannot parse condition %q", part)
 		}
 		col := strings.ToLower(cm[1])
